@@ -114,6 +114,16 @@ class Check:
         if msg not in self.deferred:
             self.deferred.append(msg)
 
+    def attempt(self, fn) -> bool:  # noqa: ANN001
+        """Run one rule; what it cannot analyse is deferred (exit 2 at the end, unless something is violated) so that
+        the rules after it - the semantic ones in particular - still decide what they can."""
+        try:
+            fn()
+        except AnalysisError as err:
+            self.defer_error(str(err))
+            return False
+        return True
+
     def second_opinion(self, fn, decided_by: str, deciding_rule_ok: bool) -> None:  # noqa: ANN001
         """Run a *structural* rule (one that reads the shape of the code) whose clause is also decided by a
         semantic rule.  Where the semantic rule holds, the code is right and a structural mismatch - or the
